@@ -5,7 +5,7 @@
    inside multi-byte UTF-8 characters, between the two characters of an operator or an escape.
    The theorems have no side condition on the chunking ("admissible" of the design is True
    after the repair 44cc475). *)
-From BCL Require Import Model.Api Proofs.LineCalcProofs Proofs.LexerProofs.
+From BCL Require Import Model.Api Proofs.LineCalcProofs Proofs.LexerProofs Proofs.ParserInvProofs.
 Open Scope N_scope.
 
 (* one call of next() on any chunking = one step on the concatenated unread bytes *)
@@ -56,6 +56,22 @@ Proof.
   exact (G cs [concat cs] (lex_chunk_independent cs)).
 Qed.
 Print Assumptions C07_parse_file.
+
+(* an accepted parse yields the SAME program, line table included, for every chunking: byte-identical dump *)
+Theorem C07_prog_equal : forall name cs,
+  pr_ok (parse_chunks name cs) = true ->
+  pr_oof (parse_chunks name cs) = false -> pr_panic (parse_chunks name cs) = false ->
+  pr_prog (parse_chunks name cs) = pr_prog (parse_whole name (concat cs)).
+Proof. first [exact ParserInvProofs.C07_prog_equal | apply ParserInvProofs.C07_prog_equal]. Qed.
+Print Assumptions C07_prog_equal.
+
+(* the diagnostic text (line:column of every message) is the same for every chunking, also when the lexer failed early and the two line tables differ *)
+Theorem C07_diag_text : forall name cs,
+  map (diag_line (g_lfs (pr_prog (parse_chunks name cs)))) (pr_diags (parse_chunks name cs)) =
+  map (diag_line (g_lfs (pr_prog (parse_whole name (concat cs)))))
+      (pr_diags (parse_whole name (concat cs))).
+Proof. first [exact ParserInvProofs.C07_diag_text | apply ParserInvProofs.C07_diag_text]. Qed.
+Print Assumptions C07_diag_text.
 
 (* non-vacuity: a boundary inside a 2-byte whitespace character and an empty chunk inside `var` *)
 Example C07_example :
